@@ -1,30 +1,58 @@
 """C12 (bounded): the token tree is well-formed and its generic views are faithful.
 
 Postconditions of Document(x), evaluated under the token sets of HtmlRenderer, MarkdownRenderer,
-LaTeXRenderer, XWiki20Renderer (parse inside the renderer's context) and AstRenderer:
+LaTeXRenderer, XWiki20Renderer (parse inside the renderer's context) and AstRenderer; the directed part
+(see below) is additionally parsed under the token sets of the contrib renderers that add tokens
+(GithubWikiRenderer, JiraRenderer, MathJaxRenderer):
 
- tree      every token reachable through .children is reached once (no sharing, no cycle)
- parent    child.parent is the token that lists it
+ tree      every token reachable through .children (and through Table.header) is reached once (no sharing,
+           no cycle)
+ parent    child.parent is the token that lists it (also inside the header row of a table; the parent of the
+           header row itself is not demanded, no token lists it)
  kinds     List>ListItem, Table>TableRow (+ header is a TableRow), TableRow>TableCell;
            Paragraph/Heading/SetextHeading/TableCell > span tokens only; Document/Quote/ListItem > block
            tokens only; BlockCode/CodeFence/HtmlBlock and InlineCode/AutoLink/EscapeSequence > exactly one
-           RawText; no span token contains a block token
+           RawText; a span token contains span tokens only; RawText/LineBreak/HtmlSpan/ThematicBreak/BlankLine
+           ("without children") have none; LinkReferenceDefinitionBlock > LinkReferenceDefinition
  ranges    Heading.level in 1..6; SetextHeading.level in {1,2}; TableCell.align in {None,0,1};
            List.start is None iff the first item's leader is one of - + * , else the leader is
            digits + '.'|')' and start == int(digits)
- traverse  mistletoe.utils.traverse(doc) with default arguments, include_source=True, depth=0..3 and three
-           klass filters yields exactly the (node, parent, depth) triples of an independent recursive walk,
-           each once
+ traverse  list(mistletoe.utils.traverse(doc, klass, depth, include_source)) is exactly the sequence of
+           (node, parent, depth) triples of an independent breadth-first walk (level by level, parents in
+           order, children in order), filtered by klass and depth, each once.
+           full grid (directed part + spec examples): klass in {None, Token, BlockToken, SpanToken, every
+           class occurring in the tree, one class that does not occur} x depth in {None, 0..height+1} x
+           include_source in {False, True}, plus traverse(child) / traverse(child, include_source=True)
+           for every top-level block as the source;
+           light grid (ALPHA part): default, include_source=True, depth=0..3, klass in {Paragraph, RawText,
+           ListItem} alone and with include_source=True, depth=2
  ast       json.loads(AstRenderer().render(doc)) (own context) resp. json.loads(json.dumps(get_ast(doc)))
-           mirrors the tree: type names, children (recursively, same order), header, line numbers
+           mirrors the tree: type names, children (recursively, same order), header, line numbers, content
+
+Input domain: 652 spec examples + ALPHA enumeration (exhaustive) + a DIRECTED part, identical for every seed:
+ tables    1..3 delimiter columns x header with n-1/n/n+1 cells x bodies {none, one row of 0, n-1, n, n+1, n+3
+           cells, two rows short/long, long/short, full/empty, empty/full} x 4 pipe styles x contexts {top
+           level, quote, bullet item, ordered item, quote>item, item>quote, lazy quote, after a paragraph};
+           cell contents rotate over emphasis, code with escaped pipe, autolink, escape, empty, non-ASCII,
+           astral, link, image, strikethrough, math, wiki link, inline HTML
+ inlines   ~60 inline specimens (every span token class of every token set, multi-line, empty, non-ASCII)
+           x {paragraph, ATX heading, setext heading, quote, list item, table cell, link text, emphasis,
+           lazy continuation}
+ blocks    ~110 block specimens (mtutil.BLOCKS + link reference definitions, setext headings, empty list
+           items, empty quotes, blank-only documents, HTML blocks of all 7 start conditions, code blocks,
+           list start numbers, identical siblings, XWiki macros) alone, in every context, and all ordered
+           pairs of mtutil.BLOCKS joined by one newline and by a blank line
+and a SEEDED part: 1500 random documents of 2..4 block specimens with random separators and nesting.
 """
 import json
+import random
+from collections import deque
 
 from runtime.common import use_repo, spec_examples, pool_map, merge
-from runtime.mtutil import reset_state, alpha_tasks, task_strings, keep_smallest
+from runtime.mtutil import reset_state, alpha_tasks, task_strings, keep_smallest, BLOCKS, SIG
 
 use_repo()
-from mistletoe import Document, block_token as bt, span_token as st  # noqa: E402
+from mistletoe import Document, block_token as bt, span_token as st, token as tk  # noqa: E402
 from mistletoe.utils import traverse  # noqa: E402
 from mistletoe.ast_renderer import AstRenderer, get_ast  # noqa: E402
 from mistletoe.html_renderer import HtmlRenderer  # noqa: E402
@@ -35,42 +63,57 @@ from mistletoe.contrib.xwiki20_renderer import XWiki20Renderer  # noqa: E402
 MAX_KEEP = 400
 SETS = [('Html', HtmlRenderer), ('Markdown', MarkdownRenderer), ('LaTeX', LaTeXRenderer), ('XWiki20', XWiki20Renderer),
         ('Ast', AstRenderer)]
+# contrib renderers whose constructor adds token classes (Scheme replaces the Markdown token lists by a Lisp
+# reader and TocRenderer/PygmentsRenderer add nothing, so they are not token sets of Markdown documents)
+EXTRA_SETS = [('GithubWiki', 'mistletoe.contrib.github_wiki', 'GithubWikiRenderer'),
+              ('Jira', 'mistletoe.contrib.jira_renderer', 'JiraRenderer'),
+              ('MathJax', 'mistletoe.contrib.mathjax', 'MathJaxRenderer')]
 LEAF_BLOCKS = ('Paragraph', 'Heading', 'SetextHeading', 'TableCell')
 CONTAINERS = ('Document', 'Quote', 'ListItem')
 ONE_RAW = ('BlockCode', 'CodeFence', 'HtmlBlock', 'InlineCode', 'AutoLink', 'EscapeSequence')
+NO_CHILDREN = ('RawText', 'LineBreak', 'HtmlSpan', 'ThematicBreak', 'BlankLine')
 KLASSES = (bt.Paragraph, st.RawText, bt.ListItem)
 
 
-def walk(doc):
-    """Independent recursive walk: [(node, parent, depth)] for every token below doc, plus the first
-    object met twice (or None)."""
-    out, seen, dup = [], {id(doc)}, []
-
-    def rec(tok, depth):
-        for c in tok.children or ():
+def walk(root):
+    """Independent breadth-first walk: ([(node, parent, depth)] for every token below root, level by level,
+    objects met twice)."""
+    out, seen, dup = [], {id(root)}, []
+    queue = deque([(root, 0)])
+    while queue:
+        tok, depth = queue.popleft()
+        for c in getattr(tok, 'children', None) or ():
             if id(c) in seen:
                 dup.append(c)
                 continue
             seen.add(id(c))
             out.append((c, tok, depth + 1))
-            rec(c, depth + 1)
-    rec(doc, 0)
-    return out, (dup[0] if dup else None)
+            queue.append((c, depth + 1))
+    return out, dup
 
 
-def well_formed(doc, nodes):
-    """-> list of (clause, message)."""
+def headers(doc, nodes):
+    """Header rows of the tables of the tree (Table.header is not listed in .children)."""
+    return [tok.header for tok, _, _ in [(doc, None, 0)] + nodes if type(tok).__name__ == 'Table' and 'header' in vars(tok)]
+
+
+def well_formed(root, nodes):
+    """-> list of (clause, message).  The parent of `root` itself is not examined."""
     bad = []
-    for tok, par, _ in [(doc, None, 0)] + nodes:
+    for tok, par, _ in [(root, None, 0)] + nodes:
         name = type(tok).__name__
+        if not isinstance(tok, tk.Token):
+            bad.append(('kinds', '%s under %s is not a token' % (name, type(par).__name__)))
+            continue
         ch = tok.children
         if par is not None and tok.parent is not par:
             bad.append(('parent', '%s under %s has parent %s' % (name, type(par).__name__, type(tok.parent).__name__)))
         kids = list(ch) if ch is not None else []
         kn = [type(c).__name__ for c in kids]
         is_span = isinstance(tok, st.SpanToken)
-        if is_span and any(isinstance(c, bt.BlockToken) for c in kids):
-            bad.append(('kinds', 'span %s contains block %s' % (name, kn)))
+        if is_span and any(not isinstance(c, st.SpanToken) for c in kids):
+            what = 'block' if any(isinstance(c, bt.BlockToken) for c in kids) else 'non-span'
+            bad.append(('kinds', 'span %s contains %s %s' % (name, what, kn)))
         if name == 'List' and (not kids or any(type(c) is not bt.ListItem for c in kids)):
             bad.append(('kinds', 'List children %s' % kn))
         if name == 'Table':
@@ -85,6 +128,10 @@ def well_formed(doc, nodes):
         if name in CONTAINERS and (ch is None or any(not isinstance(c, bt.BlockToken) for c in kids)):
             bad.append(('kinds', '%s children %s' % (name, kn if ch is not None else None)))
         if name in ONE_RAW and kn != ['RawText']:
+            bad.append(('kinds', '%s children %s' % (name, kn)))
+        if name in NO_CHILDREN and kids:
+            bad.append(('kinds', '%s children %s' % (name, kn)))
+        if name == 'LinkReferenceDefinitionBlock' and any(n != 'LinkReferenceDefinition' for n in kn):
             bad.append(('kinds', '%s children %s' % (name, kn)))
         if name == 'Heading' and not (type(tok.level) is int and 1 <= tok.level <= 6):
             bad.append(('ranges', 'Heading.level %r' % (tok.level,)))
@@ -105,34 +152,80 @@ def well_formed(doc, nodes):
     return bad
 
 
-def check_traverse(doc, nodes):
-    bad = []
-    ref = [(id(n), id(p), d) for n, p, d in nodes]
-
-    def got(**kw):
-        return sorted((id(r.node), id(r.parent) if r.parent is not None else None, r.depth) for r in traverse(doc, **kw))
-    if got() != sorted(ref):
-        bad.append(('traverse', 'default arguments'))
-    if got(include_source=True) != sorted(ref + [(id(doc), None, 0)]):
-        bad.append(('traverse', 'include_source=True'))
-    for k in (0, 1, 2, 3):
-        if got(depth=k) != sorted(t for t in ref if t[2] <= k):
-            bad.append(('traverse', 'depth=%d' % k))
-    for K in KLASSES:
-        want = sorted((id(n), id(p), d) for n, p, d in nodes if isinstance(n, K))
-        if got(klass=K) != want:
-            bad.append(('traverse', 'klass=%s' % K.__name__))
-        if got(klass=K, include_source=True, depth=2) != sorted(t for t in want if t[2] <= 2):
-            bad.append(('traverse', 'klass=%s,include_source,depth=2' % K.__name__))
-    return bad
+# ------------------------------------------------------------------ traverse
+def _kname(K):
+    return None if K is None else K.__name__
 
 
+def _one_traverse(src, nodes, K, d, inc):
+    """Compare one call of traverse with the independent walk -> None or a message."""
+    want = [(id(src), None, 0)] if inc and (K is None or isinstance(src, K)) else []
+    want += [(id(n), id(p), dep) for n, p, dep in nodes if (K is None or isinstance(n, K)) and (d is None or dep <= d)]
+    kw = {}
+    if K is not None:
+        kw['klass'] = K
+    if d is not None:
+        kw['depth'] = d
+    if inc:
+        kw['include_source'] = True
+    args = '+'.join(sorted(kw)) or 'default'
+    try:
+        got = [(id(r.node), id(r.parent) if r.parent is not None else None, r.depth) for r in traverse(src, **kw)]
+    except RecursionError:
+        raise
+    except Exception as e:  # noqa
+        return '%s: (klass=%s, depth=%s, include_source=%s) raises %s: %s' % (args, _kname(K), d, inc, type(e).__name__, e)
+    if got == want:
+        return None
+    if sorted(got, key=repr) == sorted(want, key=repr):
+        return '%s:order: (klass=%s, depth=%s, include_source=%s) yields the right triples in another order than breadth-first' \
+               % (args, _kname(K), d, inc)
+    gs, ws = set(got), set(want)
+    return '%s: (klass=%s, depth=%s, include_source=%s) yields %d triples, %d expected; %d missing, %d unexpected, %d repeated' \
+           % (args, _kname(K), d, inc, len(got), len(want), len(ws - gs), len(gs - ws), len(got) - len(gs))
+
+
+def check_traverse(doc, nodes, full):
+    """-> (list of (clause, message) with at most one entry: the failing call with the fewest non-default
+    arguments, number of traverse calls compared)."""
+    if full:
+        present = list(dict.fromkeys(type(n) for n, _, _ in nodes))
+        absent = [K for K in (bt.ThematicBreak, st.Strikethrough, bt.CodeFence) if K not in present][:1]
+        klasses = [None, tk.Token, bt.BlockToken, st.SpanToken, bt.Document] + present + absent
+        height = max([d for _, _, d in nodes] or [0])
+        depths = [None] + list(range(0, height + 2))
+        combos = [(K, d, inc) for K in klasses for d in depths for inc in (False, True)]
+        combos.sort(key=lambda c: (c[0] is not None) + (c[1] is not None) + c[2])
+    else:
+        combos = [(None, None, False), (None, None, True)] + [(None, k, False) for k in (0, 1, 2, 3)]
+        for K in KLASSES:
+            combos += [(K, None, False), (K, 2, True)]
+    n = 0
+    for K, d, inc in combos:
+        n += 1
+        m = _one_traverse(doc, nodes, K, d, inc)
+        if m:
+            return [('traverse', m)], n
+    if full:
+        for c in doc.children or ():
+            sub, _ = walk(c)
+            for inc in (False, True):
+                n += 1
+                m = _one_traverse(c, sub, None, None, inc)
+                if m:
+                    return [('traverse', 'subtree:' + m.split(':', 1)[1] + ' from source %s' % type(c).__name__)], n
+    return [], n
+
+
+# ------------------------------------------------------------------ AST
 def mirror(tok, node, path='$'):
     if not isinstance(node, dict) or node.get('type') != type(tok).__name__:
         return '%s: type %r for %s' % (path, node.get('type') if isinstance(node, dict) else node, type(tok).__name__)
     if getattr(tok, 'line_number', None) is not None and 'line_number' in type(tok).repr_attributes \
             and node.get('line_number') != tok.line_number:
         return '%s: line_number %r vs %r' % (path, node.get('line_number'), tok.line_number)
+    if isinstance(vars(tok).get('content'), str) and node.get('content') != tok.content:
+        return '%s: content %r vs %r' % (path, node.get('content'), tok.content)
     if 'header' in vars(tok):
         m = mirror(tok.header, node.get('header'), path + '.header')
         if m:
@@ -150,15 +243,51 @@ def mirror(tok, node, path='$'):
     return None
 
 
-def check_doc(x, setname, renderer):
-    """-> (list of (clause, message), nontrivial)"""
+# ------------------------------------------------------------------ coverage features (directed part only)
+def features(doc, nodes, hdr_nodes):
+    f = set()
+    for tok, par, _ in nodes + hdr_nodes:
+        name = type(tok).__name__
+        f.add('edge:%s>%s' % (type(par).__name__, name))
+        if name == 'Table' and 'header' in vars(tok):
+            ncol = len(tok.column_align)
+            anc, p = [], par
+            while p is not None:
+                anc.append(type(p).__name__)
+                p = p.parent
+            where = 'ListItem' if 'ListItem' in anc else 'Quote' if 'Quote' in anc else 'top'
+            nh = len(tok.header.children or ())
+            f.add('table-header-%s@%s' % ('short' if nh < ncol else 'long' if nh > ncol else 'full', where))
+            for r in tok.children or ():
+                nr = len(r.children or ())
+                f.add('table-row-%s@%s' % ('short' if nr < ncol else 'long' if nr > ncol else 'full', where))
+        if name in ('ListItem', 'Quote', 'TableCell', 'Paragraph', 'Heading', 'SetextHeading') and not tok.children:
+            f.add('empty:' + name)
+    if not doc.children:
+        f.add('empty:Document')
+    return f
+
+
+def check_doc(x, setname, renderer, full):
+    """-> (list of (clause, message), nontrivial, number of traverse calls compared, coverage features)"""
     doc = Document(x)
     nodes, dup = walk(doc)
     bad = []
-    if dup is not None:
-        bad.append(('tree', '%s object reachable twice' % type(dup).__name__))
     bad += well_formed(doc, nodes)
-    bad += check_traverse(doc, nodes)
+    hdr_nodes = []
+    for h in headers(doc, nodes):
+        if not isinstance(h, tk.Token):
+            continue
+        hn, hd = walk(h)
+        bad += well_formed(h, hn)
+        hdr_nodes += [(h, None, 0)] + hn
+        dup += hd
+    ids = [id(n) for n, _, _ in nodes + hdr_nodes]
+    if dup or len(set(ids)) != len(ids):
+        d = dup[0] if dup else [n for n, _, _ in nodes + hdr_nodes if ids.count(id(n)) > 1][0]
+        bad.append(('tree', '%s object reachable twice' % type(d).__name__))
+    tb, ncalls = check_traverse(doc, nodes, full)
+    bad += tb
     try:
         text = renderer.render(doc) if setname == 'Ast' else json.dumps(get_ast(doc))
         m = mirror(doc, json.loads(text))
@@ -168,7 +297,7 @@ def check_doc(x, setname, renderer):
         raise
     except Exception as e:  # noqa
         bad.append(('ast', '%s: %s' % (type(e).__name__, e)))
-    return bad, len(nodes) > 2
+    return bad, len(nodes) > 2, ncalls, (features(doc, nodes, hdr_nodes) if full else ())
 
 
 def classify(clause, msg):
@@ -178,20 +307,252 @@ def classify(clause, msg):
     if clause == 'ast':
         return 'ast-mirror'
     if clause == 'parent':
-        return 'parent-link'
+        return 'parent-link:' + msg.split(' ')[0]
     if clause == 'traverse':
-        return 'traverse:' + msg
+        head = msg.split(' ', 1)[0].rstrip(':')
+        return 'traverse:' + head
+    if clause == 'tree':
+        return 'tree:shared-' + msg.split(' ')[0]
     return clause + ':' + msg.split(' ')[0]
 
 
-def work(task):
-    xs = task[1] if task[0] == 'fixed' else task_strings(task)
-    spec = _spec_set() if task[0] != 'fixed' else ()
-    stats = {'evaluations': 0, 'distinct_nontrivial': 0, 'contract_evaluations': 0, 'samples': []}
-    found = {}
-    xs = [x for x in xs if x not in spec]
-    for setname, R in SETS:
+# ------------------------------------------------------------------ directed inputs
+def quote(t):
+    return '\n'.join('> ' + ln if ln else '>' for ln in t.split('\n'))
+
+
+def item(t, marker='- '):
+    ls = t.split('\n')
+    return '\n'.join([marker + ls[0]] + [(' ' * len(marker) + ln if ln else '') for ln in ls[1:]])
+
+
+def lazy_quote(t):
+    ls = t.split('\n')
+    return '\n'.join(['> ' + ls[0]] + ls[1:])
+
+
+def lazy_item(t):
+    ls = t.split('\n')
+    return '\n'.join(['- ' + ls[0]] + ls[1:])
+
+
+CONTEXTS = [
+    ('top', lambda t: t),
+    ('quote', quote),
+    ('item', item),
+    ('oitem', lambda t: item(t, '7. ')),
+    ('quote>item', lambda t: quote(item(t))),
+    ('item>quote', lambda t: item(quote(t))),
+    ('lazyquote', lazy_quote),
+    ('afterpara', lambda t: 'para\n' + t),
+    ('lazyitem', lazy_item),
+    ('quote>quote', lambda t: quote(quote(t))),
+    ('item>item', lambda t: item('x\n' + item(t, '+ '))),
+    ('item,blank', lambda t: item('x\n\n' + t)),
+]
+TABLE_CONTEXTS = CONTEXTS[:8]
+
+CELLS = ['a', '*e*', '`c\\|d`', '<http://x.y>', '\\*', '', 'é𝄞', '[l](u)', '**s** t', '$m$', '<b>', '~~s~~',
+         '![i](s)', 'a\\|b', '`c`', '[[w\\|t]]', '<a@b.c>', '\\\\', '&amp;']
+ALIGNS = ['---', ':--', '--:', ':-:', '-']
+
+
+def table_row(cells, style):
+    if not cells:
+        return '|' if style in (0, 2) else '||'
+    s = ' | '.join(cells)
+    if style == 1 and len(cells) == 1:
+        style = 3  # a row needs a pipe to belong to the table
+    return ('| ' if style in (0, 2) else '') + s + (' |' if style in (0, 3) else '')
+
+
+def table_docs():
+    docs, k = [], 0
+
+    def cells(n):
+        nonlocal k
+        out = [CELLS[(k + i) % len(CELLS)] for i in range(n)]
+        k += n + 1
+        return out
+    for n in (1, 2, 3):
+        bodies = [None, (0,), (n - 1,), (n,), (n + 1,), (n + 3,), (n - 1, n + 1), (n + 1, n - 1), (n, 0), (0, n)]
+        for h in sorted({max(n - 1, 0), n, n + 1}):
+            for body in bodies:
+                for style in range(4):
+                    lines = [table_row(cells(h), style), table_row(ALIGNS[(k + style) % 5:][:n] + ALIGNS[:max(0, n - 5 + (k + style) % 5)], style)]
+                    for r in body or ():
+                        lines.append(table_row(cells(max(r, 0)), style))
+                    t = '\n'.join(lines)
+                    for _, ctx in TABLE_CONTEXTS:
+                        docs.append(ctx(t))
+    docs += [
+        '|a|b|\n|-|-|\n|1|2|\n\n|a|b|\n|-|-|\n|1|2|',           # identical sibling tables
+        '|a|a|\n|-|-|\n|a|a|\n|a|a|',                           # identical cells and rows
+        '| | |\n|-|-|\n| | |\n|  |',                            # whitespace-only cells
+        '|a|\n|-|-|-|\n|1|',                                    # delimiter row wider than header and body
+        '|a|b|c|d|e|f|\n|-|-|-|-|-|-|\n|1|\n|1|2|3|4|5|6|7|8|',  # six columns, short and over-long rows
+        '|a|b|\n|-|-|\n|1|2|\ntext without pipe',               # table ended by a paragraph
+        'a|b\n-|-\n\\|\n\\\\|x|y',                               # escaped pipes and backslashes
+        '|a|b|\n|-|-|\n|1|2|  \n|3|\t\n',                       # trailing whitespace
+        '|`a|b`|\n|-|-|\n|*x|y*|',                              # inline constructs cut by the cell splitter
+        '| a | b |\n|:-:|--:|\n| é | 𝄞 | extra |\n|',
+        '- |a|b|\n  |-|-|\n  |1|\n- |c|\n  |-|\n  |1|2|\n',
+        '> |a|b|\n> |-|-|\n> |1|\n>\n> |c|\n> |-|\n> |1|2|',
+        '> - > |a|b|\n>   > |-|-|\n>   > |1|2|3|\n>   > |',
+        '|a|b|\n|-|-|\n|1|\n# h\n|c|d|\n|-|-|',
+    ]
+    return docs
+
+
+INLINES = [
+    'a', '', 'é', '𝄞 \U0001F600', 'a b  c',
+    '`code`', '`` a`b ``', '` `', '`a\nb`', '` a `',
+    '<http://a.b>', '<a@b.c>', '<mailto:a@b.c>', '<x+y.z-1:>',
+    '\\*', '\\\\', '\\\\\\*', 'a\\b', '\\`c\\`',
+    'a\\\nb', 'a  \nb', 'a\nb', 'a   \n   b',
+    '*e*', '**s**', '***es***', '*a **b** c*', '_e_ __s__', '*a\nb*', '**a*', '*a**',
+    '~~s~~', '~~a *b* c~~', '~~a\nb~~',
+    '[l](u)', '[l](u "t")', '[*e* `c`](u)', '[l](<u v> (t))', '[a\nb](u)', '[](u)', '[l]()',
+    '![i](s)', '![*e*](s "t")', '[![i](s)](u)', '![]()', '![a ![b](c)](d)',
+    '[ref]', '[ref][]', '[t][ref]', '![ref]', '[undefined][nope]',
+    '<b>', '<!-- c -->', '<?p ?>', '<![CDATA[x]]>', '<a href="u">t</a>', '</b>',
+    '&amp;', '&#x1F600;', '&nosuch;',
+    '$m$', '$$m$$', '$a$ and $b$', '$a *b* c$', '$`$',
+    '[[a|b]]', '[[ *a* | b ]]', '[[a|b]] [[c|d]]',
+    '{{macro}}\nx', 'x\n{{/macro}}', '{{m a="b"}}\ntext *e*\n{{/m}}', '{{m/}}\n',
+    '*a `b* c`', '[a `b](u) c`', '<a `b> c`', '**a [b**](u)',
+]
+REFDEF = '\n\n[ref]: /url "title"'
+
+
+def inline_docs():
+    docs = []
+    for s in INLINES:
+        one = '\n' not in s
+        docs.append(s + REFDEF)
+        docs.append(s + '\n===' + REFDEF)
+        docs.append(s + '\n---')
+        docs.append(quote(s) + REFDEF)
+        docs.append(item(s) + REFDEF)
+        docs.append(lazy_quote(s))
+        docs.append(lazy_item(s))
+        docs.append('[' + s + '](u)')
+        docs.append('*' + s + '*' + REFDEF)
+        docs.append('~~' + s + '~~')
+        docs.append(s + ' ' + s + REFDEF)           # identical siblings
+        if one:
+            docs.append('# ' + s + REFDEF)
+            docs.append('###### ' + s + ' ##')
+            docs.append('| %s | %s |\n|---|:-:|\n| %s |' % (s, s, s) + REFDEF)
+            docs.append('> - # ' + s)
+    return docs
+
+
+EXTRA_BLOCKS = [
+    # link reference definitions (kept as tokens only in the Markdown token set)
+    '[a]: /u', '[a]: /u\n[b]: /v "t"', "[a]:\n  /u\n  'title\n  cont'", '[a]: /u\ntext [a]', 'text\n[a]: /u', '[a]: <u v> (t)',
+    '[A]: /u\n[a]: /v\n\n[a]', '[a]: /u\n===', '[a]: /u\nTitle [a]\n===', '[a]: /u "t" x', '[a]: /u\n[b]', '[é𝄞]: /u\n\n[É𝄞]',
+    '[a]: /u\n\n[a]: /u\n\n[a]',
+    # setext headings
+    'T\n=', 'T\n-', 'A\nB\nC\n===', 'T  \n===   ', '   T\n   ---', 'T\n===\nU\n---', 'T\n===\n===', '`T\n===`', '*T\n---\n*',
+    # empty list items, empty quotes, blank-only documents
+    '-', '- ', '-\n-', '-\n\n-', '- \n- a\n-', '1.', '1.\n2.', '-\n\n  x', '- a\n-\n- b', '*\n\n\n*', '-   \n  a',
+    '>', '> ', '>\n>', '>\n\n>', '> \n>  \n', '>>', '> >\n>', '- >', '> -', '>\n-\n>',
+    '', '\n', '\n\n\n', ' \n', '\t\n  \n', '\n\na', 'a\n\n\n', ' \n>\n \n',
+    # headings
+    '#', '# #', '###### six', '####### seven', '#\ta\t#', '   # a', '#a', '# a\n# a',
+    # HTML blocks: the seven start conditions
+    '<script>\n\nx\n</script>', '<!-- c -->', '<?x\n\n?>', '<!X\n\n>', '<![CDATA[\n\n]]>', '<table>\n<tr>\n\n</table>', '<x-y a="b">\n*t*\n\n*p*',
+    '</div>\n*t*', '<div>', '<pre>\nunclosed',
+    # code blocks
+    '```', '```\n```', '~~~é 𝄞\né\n~~~', '   ```\n   x\n  y\n```', '````\n```\n````', '    a\n\n\tb\n', '\tcode', '    a\n\n    a',
+    '``` a`b\nx', 'p\n    notcode',
+    # list start numbers and sibling lists
+    '0. a', '007) a', '123456789. a', '1234567890. a', '2. a\n3. b', '- a\n+ b\n* c', '1. a\n1) b', '- a\n- a', 'p\n2. notlist', 'p\n1. list',
+    '- a\n\n\n  b', '- a\n b\nc', '10. a\n\n    b', '-\ta\n\n\tb',
+    # thematic breaks, identical siblings, misc
+    '---\n---', '* * *\n- - -', 'a\n\na', '> a\n\n> a', '`c`\n\n`c`', 'a\\\n', 'a  \n', '*\n*',
+    # XWiki macros on their own lines
+    '{{info}}\ntext\n{{/info}}', '{{code language="py"}}\nx = 1\n{{/code}}', '> {{info}}\n> t\n> {{/info}}',
+    # wiki links and math as blocks of their own
+    '[[a|b]]', '$$\nx\n$$', '$a$\n===',
+]
+
+
+def block_docs():
+    allb = BLOCKS + EXTRA_BLOCKS
+    docs = list(allb)
+    for b in allb:
+        for _, ctx in CONTEXTS[1:]:
+            docs.append(ctx(b))
+        docs.append(b + '\n')
+        docs.append('\n' + b)
+    for a in BLOCKS:
+        for b in BLOCKS:
+            docs.append(a + '\n' + b)
+            docs.append(a + '\n\n' + b)
+    for a in EXTRA_BLOCKS:
+        docs.append(a + '\n' + a)
+        docs.append(a + '\n\nfoo')
+        docs.append('foo\n' + a)
+    return docs
+
+
+_DIRECTED = None
+
+
+def directed_docs():
+    global _DIRECTED
+    if _DIRECTED is None:
+        _DIRECTED = list(dict.fromkeys(table_docs() + inline_docs() + block_docs()))
+    return _DIRECTED
+
+
+def seeded_docs(seed, n=1500):
+    rng = random.Random(1200007 * (seed + 1))
+    allb = BLOCKS + EXTRA_BLOCKS + [d for d in table_docs()[::97]]
+    docs = []
+    while len(docs) < n:
+        parts = [rng.choice(allb) for _ in range(rng.randint(2, 4))]
+        t = parts[0]
+        for p in parts[1:]:
+            t += rng.choice(['\n', '\n\n', '\n\n\n', '\n \n']) + p
+        for _ in range(rng.choice([0, 0, 1, 1, 2])):
+            t = rng.choice(CONTEXTS[1:])[1](t)
+        if rng.random() < 0.3:
+            t += '\n'
+        docs.append(t)
+    return docs
+
+
+def in_alpha(x, n28, n12):
+    return (len(x) <= n28 and all(c in SIG['SIGMA28'] for c in x)) or (len(x) <= n12 and all(c in SIG['SIGMA12'] for c in x))
+
+
+# ------------------------------------------------------------------ work units
+def _extra_sets():
+    import importlib
+    out = []
+    for name, mod, cls in EXTRA_SETS:
         try:
+            out.append((name, getattr(importlib.import_module(mod), cls)))
+        except Exception as e:  # noqa
+            out.append((name, e))
+    return out
+
+
+def work(task):
+    full = task[0] == 'fixed'
+    xs = task[1] if full else task_strings(task)
+    stats = {'evaluations': 0, 'distinct_nontrivial': 0, 'contract_evaluations': 0, 'traverse_calls': 0, 'samples': []}
+    found, feats = {}, {}
+    if not full:
+        skip = _skip_set()
+        xs = [x for x in xs if x not in skip]
+    for setname, R in (SETS + _extra_sets() if full else SETS):
+        try:
+            if isinstance(R, Exception):
+                raise R
             r = R()
         except Exception as e:  # noqa
             reset_state(tokens=True)
@@ -201,15 +562,18 @@ def work(task):
             for x in xs:
                 stats['contract_evaluations'] += 1
                 try:
-                    bad, nt = check_doc(x, setname, r)
+                    bad, nt, nc, fs = check_doc(x, setname, r, full)
                 except RecursionError:
                     raise
                 except Exception as e:  # noqa
                     reset_state()
-                    bad, nt = [('noraise', '%s: %s' % (type(e).__name__, e))], False
+                    bad, nt, nc, fs = [('noraise', '%s: %s' % (type(e).__name__, e))], False, 0, ()
+                stats['traverse_calls'] += nc
                 if setname == 'Html':
                     stats['evaluations'] += 1
                     stats['distinct_nontrivial'] += 1 if nt else 0
+                if fs:
+                    feats.setdefault(x, set()).update(fs)
                 for clause, msg in bad:
                     e = found.setdefault((clause, x), {'sets': [], 'msg': msg, 'x': x})
                     if setname not in e['sets']:
@@ -226,13 +590,20 @@ def work(task):
     by_class = {}
     for f in fails:
         by_class[f['class']] = by_class.get(f['class'], 0) + 1
+    cov = {}
+    for fs in feats.values():
+        for k in fs:
+            cov[k] = cov.get(k, 0) + 1
     if task[0] == 'alpha' and xs and len(task[3]) == 1:
         stats['samples'] = [xs[len(xs) // 3]]
-    stats.update({'failures': keep_smallest(fails, MAX_KEEP), 'failures_total': len(fails), 'by_class': by_class})
+    elif full and len(task) > 2 and task[2] == 'directed' and xs:
+        stats['samples'] = [xs[len(xs) // 2]]
+    stats.update({'failures': keep_smallest(fails, MAX_KEEP), 'failures_total': len(fails), 'by_class': by_class, 'coverage': cov})
     return stats
 
 
 _SPEC = None
+_SKIP = None
 
 
 def _spec_set():
@@ -242,22 +613,54 @@ def _spec_set():
     return _SPEC
 
 
+def _skip_set():
+    """Strings of the ALPHA enumeration that are evaluated (with the full grid) in the fixed part."""
+    global _SKIP
+    if _SKIP is None:
+        _SKIP = set(_spec_set()) | {x for x in directed_docs() if len(x) <= 6}
+    return _SKIP
+
+
 def run(tier, seed, workers):
     n28, n12 = (4, 6) if tier == 'thorough' else (3, 5)
     spec = sorted(_spec_set())
-    ts = [('fixed', spec[i::16]) for i in range(16)] + alpha_tasks(n28, n12)
+    directed = [x for x in directed_docs() if x not in _spec_set()]
+    dset = set(directed) | set(spec)
+    seeded = [x for x in dict.fromkeys(seeded_docs(seed, 6000 if tier == 'thorough' else 1500)) if x not in dset]
+    nfix = 96
+    fixed = [('fixed', spec[i::16], 'spec') for i in range(16)] + \
+            [('fixed', directed[i::nfix], 'directed') for i in range(nfix)] + \
+            [('fixed', seeded[i::16], 'seeded') for i in range(16)]
+    alpha = alpha_tasks(n28, n12)
+    # interleave the (heavier) fixed units with the alpha units for load balance
+    ts, step = [], max(1, len(alpha) // len(fixed))
+    for i, t in enumerate(fixed):
+        ts.append(t)
+        ts.extend(alpha[i * step:(i + 1) * step])
+    ts.extend(alpha[len(fixed) * step:])
     res = pool_map(work, ts, workers)
     out = merge(res)
-    by_class = {}
+    by_class, cov = {}, {}
     for r in res:
         for k, v in r['by_class'].items():
             by_class[k] = by_class.get(k, 0) + v
+        for k, v in r['coverage'].items():
+            cov[k] = cov.get(k, 0) + v
+    out['samples'] = [s for r, t in zip(res, ts) if t[0] == 'fixed' for s in r.get('samples', [])][:4] + out['samples'][:4]
     out.update({
-        'domain': '652 spec examples ∪ ALPHA(SIGMA28 [27 distinct characters],%d) ∪ ALPHA(SIGMA12,%d) x token sets of '
-                  'Html, Markdown, LaTeX, XWiki20 and Ast renderers' % (n28, n12),
-        'rule': 'exhaustive (seed unused); evaluations = distinct inputs, contract_evaluations = input x token set; '
-                'non-trivial = the Html-token-set tree has more than two tokens below the document',
-        'exhaustive': True, 'failures_total': sum(r['failures_total'] for r in res),
+        'domain': '652 spec examples ∪ %d directed documents (tables with short/over-long rows and headers in 8 contexts, '
+                  'inline specimens x 15 leaf contexts, block specimens x 12 nesting contexts, all ordered pairs of 46 block '
+                  'specimens; same for every seed) ∪ %d seeded random compositions ∪ ALPHA(SIGMA28 [27 distinct characters],%d) '
+                  '∪ ALPHA(SIGMA12,%d); token sets of Html, Markdown, LaTeX, XWiki20 and Ast renderers for every input, plus '
+                  'GithubWiki, Jira and MathJax for the spec/directed/seeded part' % (len(directed), len(seeded), n28, n12),
+        'rule': 'exhaustive except for the seeded part (seed selects the %d random compositions); evaluations = distinct '
+                'inputs, contract_evaluations = input x token set; non-trivial = the Html-token-set tree has more than two '
+                'tokens below the document; traverse_calls = calls of utils.traverse compared with the independent walk; '
+                'coverage = number of spec/directed/seeded inputs whose tree (any token set) shows the feature '
+                '(edge:Parent>Child, table-row-short/long@where, empty:Kind)' % len(seeded),
+        'exhaustive': False, 'failures_total': sum(r['failures_total'] for r in res),
+        'traverse_calls': sum(r['traverse_calls'] for r in res),
         'failures_by_class': dict(sorted(by_class.items(), key=lambda kv: -kv[1])),
+        'coverage': dict(sorted(cov.items())),
         'failures': keep_smallest(out['failures'], MAX_KEEP)})
     return out
